@@ -174,6 +174,11 @@ def eval_real(c):
             if not (rec['req'] and rec['resp']):
                 rec['viol'] = ({'kind': 'parse_error_without_data', 'exc': cls, 'site': _site(r)},
                                {'exc': repr(r)[:300], 'request_data': rec['req'], 'response_data': rec['resp']})
+        if isinstance(r, pywbem.HTTPError):
+            rec['http'] = {'status': r.status, 'cimerror': cimproto.ocps(r.cimerror),
+                           'pg': 'PGErrorDetail' in (r.cimdetails or {})}
+        elif isinstance(r, pywbem.AuthError):
+            rec['http'] = {'basic': "does not support HTTP authentication scheme 'Basic'" not in str(r)}
         if isinstance(r, pywbem.CIMError):
             rec['out'] = {'exc': 'CIMError', 'code': max(0, r.status_code)}
     else:
@@ -474,7 +479,7 @@ def _mreq(c):
 
 
 def run(run):
-    scale = int(os.environ.get("C02_SCALE", 1200 if run.thorough else 110))
+    scale = int(os.environ.get("C02_SCALE", 1000 if run.thorough else 90))
     run.rule = ('for each of %d operation entry points (every public operation method, instance-/class-level and '
                 'pull/traditional variants of the Iter* generators): valid responses built from pywbem objects of the '
                 'type-directed generator, CIM errors, 1-3 tree-level mutations (drop/duplicate/swap/rename element, '
@@ -541,6 +546,16 @@ def run(run):
             if 'req' in rec and (ans.get('req') != rec['req'] or ans.get('resp') != rec['resp']):
                 run.disagree(case_json(c), [ans.get('req'), ans.get('resp')], [rec['req'], rec['resp']],
                              'request_data / response_data flags of a parse error')
+    # HTTPError payload / 401 scheme logic (Envelope.httpErrorInfo, basicOffered)
+    hc = [(c, rec) for c, rec in zip(cases, reals) if rec.get('http') is not None and c.get('transport_exc') is None]
+    hans = common.run_driver(PROP, [{'op': 'http', 'http': {'status': c['status'], 'headers': [
+        [cimproto.cps(k), cimproto.cps(v)] for k, v in c['headers'].items()]}} for c, _ in hc]) if hc else []
+    for (c, rec), ans in zip(hc, hans):
+        want = rec['http']
+        got = {k: ans.get(k) for k in want}
+        run.count('http_payload:' + rec['cls'])
+        if got != want:
+            run.disagree(case_json(c), got, want, 'HTTPError attributes / AuthError scheme text: Envelope.httpErrorInfo, basicOffered')
     # the same responses from their TEXT: XmlParse.par as the SAX layer (Model/Wire.lean: operationText)
     tcases = []
     for (c, rec), q in zip(mcases, [reqs[i] for i in keep]):
@@ -557,8 +572,7 @@ def run(run):
         tq['op'] = 'rspText'
         tq['text'] = cimproto.cps(text)
         tcases.append((c, rec, q, tq))
-    if not run.thorough:
-        tcases = tcases[::2]
+    tcases = tcases[::3] if run.thorough else tcases[::4]
     tans = common.run_driver(PROP, [t[3] for t in tcases]) if tcases else []
     for (c, rec, q, tq), ans in zip(tcases, tans):
         op = L.op_by_name(c['op'])
